@@ -158,6 +158,11 @@ def _observer_oracle(torch, o, p, gets, xs, alpha_named):
     p(*xs)
 
 
+def _alpha_grad(torch, c, alpha):
+    g = torch.autograd.grad(c, alpha, retain_graph=True, allow_unused=True)[0] if (c.requires_grad and alpha.requires_grad) else None
+    return None if g is None else g.detach().double()
+
+
 # ----------------------------------------------------------------------------- SuperNet
 def _sn_specs():
     from plinio.cost import params, ops, params_no_bias, ops_no_bias, gap8_latency
@@ -219,8 +224,11 @@ def sn_case(torch, seed, mname, full_cost):
                             ci += float(fmap[ln](v))
                         bc.append(ci)
                     gth = torch.autograd.grad(c, layer.theta_alpha, retain_graph=True, allow_unused=True)[0] if (c.requires_grad and layer.theta_alpha.requires_grad) else None
+                    ga = _alpha_grad(torch, c, layer.alpha)
                     o['mix'].append({'spec': which, 'comb': lname, 'theta': [float(v) for v in layer.theta_alpha.detach()], 'branch_cost': bc,
-                                     'dcost_dtheta': None if gth is None else [float(v) for v in gth]})
+                                     'dcost_dtheta': None if gth is None else [float(v) for v in gth],
+                                     'alpha': [float(v) for v in layer.alpha.detach()], 'T': float(layer.softmax_temperature),
+                                     'dcost_dalpha': None if ga is None else [float(v) for v in ga]})
                     if any(not _finite_nonneg(v) for v in bc):
                         o['fails'].append(('branch-cost-negative:' + which, bc))
                 elif 'sn_branches' not in str(node.target) and full_cost:
@@ -330,7 +338,13 @@ def mps_case(torch, seed, mname, per_channel):
                         gth = torch.autograd.grad(c, layer.w_mps_quantizer.theta_alpha, retain_graph=True, allow_unused=True)[0] if (c.requires_grad and layer.w_mps_quantizer.theta_alpha.requires_grad) else None
                         if gth is not None and gth.dim() == 2:
                             gth = gth.sum(dim=1)       # per channel: theta_w_j = mean_c theta[j, c]
-                        o['mps'].append({'spec': which, 'layer': lname, 'thin': thin, 'thw': thw, 'c': cm, 'dcost_dthw': None if gth is None else [float(v) for v in gth]})
+                        qa = layer.w_mps_quantizer.alpha
+                        ga = _alpha_grad(torch, c, qa)
+                        o['mps'].append({'spec': which, 'layer': lname, 'thin': thin, 'thw': thw, 'c': cm, 'dcost_dthw': None if gth is None else [float(v) for v in gth],
+                                         # alpha as a list of columns (one per channel; per-layer search: one column), d cost / d alpha likewise
+                                         'alpha': [[float(v) for v in col] for col in (qa.detach().t() if qa.dim() == 2 else qa.detach().unsqueeze(0))],
+                                         'T': float(layer.w_mps_quantizer.temperature),
+                                         'dcost_dalpha': None if ga is None else [[float(v) for v in col] for col in (ga.t() if ga.dim() == 2 else ga.unsqueeze(0))]})
                         if any(not _finite_nonneg(v) for r in cm for v in r):
                             o['fails'].append(('branch-cost-negative:' + which, cm))
             stage = 'raise:' + which
